@@ -216,28 +216,28 @@ Definition order_remove (nid : N) (s : state) : state :=
   if in_order nid (s_order s) then set_order (remove_order nid (s_order s)) s
   else set_panic s.
 
-(* the loop  for r.used > r.capacity { rn := r.recent.prev; rn.remove(); rn.n.CacheData = nil;
-   r.used -= rn.n.Size(); evicted = append(evicted, rn) }  — structural on the recency list;
-   returns the remaining list, used, nodes, the evicted ids in eviction order, panicked? *)
-Fixpoint evict_loop (ord : list N) (cap : N) (used : Z) (nodes : list node) (ev : list N)
-  : list N * Z * list node * list N * bool :=
-  if (Z.of_N cap <? used)%Z then
+(* one iteration of the loop  for r.used > r.capacity { rn := r.recent.prev; rn.remove();
+   rn.n.CacheData = nil; r.used -= rn.n.Size(); evicted = append(evicted, rn) }
+   with rn.n = n, the least recently used node x, and ord' the rest of the list *)
+Definition evict_one (x : N) (n : node) (ord' : list N) (s : state) : state :=
+  set_order ord' (set_used (s_used s - Z.of_N (n_size n))%Z (upd_node x (nd_lru LAbsent) s)).
+
+(* the loop itself — structural on the recency list (always called with ord = s_order s);
+   returns the state and the evicted node ids in eviction order.  An empty list while
+   used > capacity is the nil dereference of the real loop. *)
+Fixpoint evict_loop (ord : list N) (s : state) : state * list N :=
+  if (Z.of_N (s_cap s) <? s_used s)%Z then
     match ord with
-    | [] => (ord, used, nodes, rev ev, true)
+    | [] => (set_panic s, [])
     | x :: ord' =>
-        match find_id x nodes with
-        | None => (ord, used, nodes, rev ev, true)
-        | Some n => evict_loop ord' cap (used - Z.of_N (n_size n))%Z (upd_id x (nd_lru LAbsent) nodes) (x :: ev)
+        match find_id x (s_nodes s) with
+        | None => (set_panic s, [])
+        | Some n => let (s', ev) := evict_loop ord' (evict_one x n ord' s) in (s', x :: ev)
         end
     end
-  else (ord, used, nodes, rev ev, false).
+  else (s, []).
 
-Definition run_evict_loop (s : state) : state * list N :=
-  match evict_loop (s_order s) (s_cap s) (s_used s) (s_nodes s) [] with
-  | (ord, used, nodes, ev, p) =>
-      let s1 := set_nodes nodes (set_used used (set_order ord s)) in
-      (if p then set_panic s1 else s1, ev)
-  end.
+Definition run_evict_loop (s : state) : state * list N := evict_loop (s_order s) s.
 
 (* lru.SetCapacity *)
 Definition lru_set_capacity (c : N) (s : state) : state :=
